@@ -13,6 +13,11 @@ Definition api_mpn_redc_1 : api := fun a =>
   let n := Z.to_nat (argz a 0) in let m := argz a 2 in
   let inv := binvert_limb (m mod B) in
   [TZ (redc_1 (argz a 1) m n ((B - inv) mod B)); TZ inv].
+(* certificate for the n-limb REDC: redcncheck n T M R -> 1 iff 0 <= R < M and R * B^n = T (mod M); for odd M this R is unique,
+   it is the canonical residue T * B^-n mod M that mpn_redc_n must return when the high half of T is below M *)
+Definition api_redcncheck : api := fun a =>
+  let n := argz a 0 in let t := argz a 1 in let m := argz a 2 in let r := argz a 3 in
+  [TZ (b2z ((0 <=? r) && (r <? m) && ((r * B ^ n - t) mod m =? 0)))].
 (* certificate for a modular power with a large modulus given as a product of pairwise coprime small
    factors: B E R f1 f2 ... -> 1 iff 0 <= R < prod f_i, the f_i are pairwise coprime, and
    R mod f_i = B^E mod f_i for every i (so R = B^E mod prod f_i by the Chinese remainder theorem) *)
